@@ -1079,6 +1079,16 @@ func (g *gen) localName() string {
 }
 
 func (g *gen) ctorFamily(sc *scope, td *TypeDecl) Stmt {
+	// prefer a named container of the current package now and then: its elided
+	// element literals instantiate a type the file need not name
+	if td.Elem == nil && !g.inXTest && g.chance("preferContainer", 12) {
+		for _, d := range g.cur {
+			if ct, ok := d.(*TypeDecl); ok && ct.Elem != nil {
+				td = ct
+				break
+			}
+		}
+	}
 	if td.Elem != nil {
 		return &Site{ID: g.p.NewID(), Kind: "elided.named", Type: td.Elem.Type, Ref: &TypeRef{Type: td}}
 	}
